@@ -136,6 +136,18 @@ theorem optimal_own (pen : Penalties) (lws : List Int) (hl : lws.length ≤ 2) (
   exact optimal_le_partition pen lws hl frs hn _
     (ownMinima_isMinimaRows pen lws hl frs (hyp_of_frags pen lws frs hf)) p hflat hne
 
+/-- **never worse than first-fit, for any penalties** (the property's "hence"): the first-fit
+    arrangement is one of the partitions into non-empty lines (C06) -/
+-- @audit TW.C03.optimal_own_le_firstfit
+theorem optimal_own_le_firstfit (pen : Penalties) (lws : List Int) (hl : lws.length ≤ 2) (frs : List IFrag)
+    (hn : frs ≠ []) (hf : FragHyp frs) :
+    ∃ segs, (wrapOptimalFit (fun f => f) pen frs lws).1 =
+        .ok (segs.map fun q => (frs.drop q.1).take (q.2 - q.1)) ∧
+      arrCost pen lws frs 0 segs ≤
+        arrCost pen lws frs 0 (segsOf 0 (wrapFirstFit (fun (f : IFrag) => f) frs lws)) :=
+  optimal_own pen lws hl frs hn hf _ (TW.C06.firstFit_flatten _ frs lws)
+    (TW.C06.firstFit_nonempty _ frs lws hn)
+
 /-- the same at the `wrap` level: with the built-in splitters (no inserted hyphens) the groups
     reassembled into lines are a minimum-cost arrangement of the paragraph's fragments -/
 -- @audit TW.C03.wrapAlg_optimal_own
